@@ -483,6 +483,10 @@ func c15SkipDelta(c *Ctx, fn *ssa.Function) (delta int64, ok bool, why string) {
 		if rn := RecvNamed(r); rn != nil && (rn.Obj() == lg.Obj() || rn.Obj() == sg.Obj()) {
 			return true
 		}
+		// an option constructor (AddCallerSkip(2)): what it returns is applied right here
+		if r.Signature.Recv() == nil && r.Signature.Results().Len() == 1 && strings.HasSuffix(r.Signature.Results().At(0).Type().String(), "zap.Option") {
+			return true
+		}
 		return false
 	}
 	skipOf := func(st *ConcState, v ssa.Value) (int64, bool) {
@@ -502,7 +506,8 @@ func c15SkipDelta(c *Ctx, fn *ssa.Function) (delta int64, ok bool, why string) {
 	}
 	var results []string
 	seqs, trunc := ConcPaths(fn, ConcCfg{
-		Inline: inl, InlineAny: inl, MaxDepth: 8, MaxStates: 200000, Unroll: true,
+		Inline: inl, InlineAny: inl, MaxDepth: 10, MaxStates: 200000, Unroll: true,
+		Devirt: func(m *ssa.Function) bool { return m.Pkg != nil && m.Pkg.Pkg.Path() == ZapPath || m.Synthetic != "" },
 		InitFields: []FieldVal{{Obj: recv, Field: field, Val: start}},
 		SliceLen:   func(p *ssa.Parameter) (int64, bool) { return 0, true },
 		Event: func(in ssa.Instruction, st *ConcState) string {
